@@ -100,6 +100,15 @@ def _worker(args):
     treat = None
     if idx % 2 == 1:
         treat = E.draw(rng, style, optstr, opts, for_pytest=True)
+    attach = idx % 6 in (2, 5)
+    if attach:
+        # ATTACHED DOCSTRINGS: half of the modules of this configuration get their docstrings at import time from a
+        # sibling module (no prompt in their own file); both front ends run with dynamic analysis
+        base = treat or E.combine([E.style_treatments(style)[0], E.option_treatments(optstr, opts)[0]])
+        base = dict(base, nat=[a for a in base['nat']], pyt=[a for a in base['pyt']], env={k: v for k, v in base['env'].items() if k != 'XDOCTEST_ANALYSIS'})
+        treat = E.combine([base, E.ANALYSIS[1]])
+        treat['name'] += '+attached-docstrings'
+    if treat is not None:
         style, opts = treat['style'], E.oracle_opts(treat)
     d = tempfile.mkdtemp(prefix='xdocverif-c15-')
     out = {'n': 0, 'suites': {}, 'nontrivial': set(), 'tags': {}, 'dis': [], 'exp': [], 'samples': [], 'unknown': 0}
@@ -109,6 +118,10 @@ def _worker(args):
         if treat is not None and treat.get('needs_import'):
             for sp in specs:
                 sp.pop('import_error', None)      # dynamic analysis has to import the module
+        if attach:
+            for k, sp in enumerate(specs):
+                if k % 2 == 0:
+                    sp['attached'] = True
         exp = {s['name']: R.expected_front_ends(s, style, opts) for s in specs}
         clean = [s for s in specs if not any(e['pytest'] == 'F' for e in exp[s['name']])]
         dirty = [s for s in specs if s not in clean]
@@ -391,18 +404,25 @@ def _shrink_hit(inp):
     if 'spec' not in inp:
         return None
     name = inp['spec']['name']
+    counter = [0]
+
+    def variant(funcs):
+        # keeps the module-level flags of the spec (attached docstrings, import error, ...); a NEW module name for
+        # every evaluation, because a module imported under a name stays in sys.modules (K-C10-c)
+        counter[0] += 1
+        return dict(inp, spec=dict(inp['spec'], name='%s_s%d' % (name, counter[0]), funcs=funcs))
 
     def pred(funcs):
         if not funcs or not any(f['blocks'] for f in funcs):
             return False
-        return bool(_check_one(dict(inp, spec={'name': name + '_s', 'funcs': funcs}))['bad'])
+        return bool(_check_one(variant(funcs))['bad'])
 
     funcs = shrink_list(inp['spec']['funcs'], pred, max_steps=10)
-    small = dict(inp, spec={'name': name + '_s', 'funcs': funcs})
+    small = variant(funcs)
     r = _check_one(small)
     if not r['bad']:
-        small = inp
-        r = _check_one(inp)
+        small = variant(inp['spec']['funcs'])
+        r = _check_one(small)
     if not r['bad']:
         return None
     return {'kind': 'expectation', 'suite': 'front_ends',
